@@ -148,6 +148,12 @@ fn state<S: Sig + Copy, E: ShardEdge<S, 3>>(e: &E) -> Value {
     })
 }
 
+/// The projection calls the code under test (`num_vertices()` multiplies):
+/// a panic there is an observation of the operation that led to this state.
+fn proj<S: Sig + Copy, E: ShardEdge<S, 3>>(e: &E) -> Result<Value, String> {
+    guard(|| state::<S, E>(e)).map_err(|m| format!("projection: {m}"))
+}
+
 fn merge(mut a: Value, b: Value) -> Value {
     if let (Value::Object(x), Value::Object(y)) = (&mut a, b) {
         for (k, v) in y {
@@ -176,9 +182,9 @@ fn drive<S: Sig + Copy, E: ShardEdge<S, 3> + mem_dbg::MemSize>(
                     t.set_up_shards(n, eps);
                     t
                 });
-                r.map(|t| {
+                r.and_then(|t| {
                     e = t;
-                    state::<S, E>(&e)
+                    proj::<S, E>(&e)
                 })
             }
             "graphs" => {
@@ -192,27 +198,30 @@ fn drive<S: Sig + Copy, E: ShardEdge<S, 3> + mem_dbg::MemSize>(
                 match r {
                     Ok((t, c, lge)) => {
                         e = t;
-                        Ok(merge(
-                            state::<S, E>(&e),
-                            json!({"msv": lim(ms), "c": format!("{}", c), "lge": lge}),
-                        ))
+                        match proj::<S, E>(&e) {
+                            Ok(st) => Ok(merge(st, json!({"msv": lim(ms), "c": format!("{}", c), "lge": lge}))),
+                            Err(m) => {
+                                ctx.emit(op, "panic", json!({"msv": lim(ms), "msg": m}));
+                                continue;
+                            }
+                        }
                     }
                     // a panicking set-up leaves the instance as it was (Copy type)
                     Err(m) => {
-                        ctx.emit(op, "panic", merge(state::<S, E>(&e), json!({"msv": lim(ms), "msg": m})));
+                        ctx.emit(op, "panic", json!({"msv": lim(ms), "msg": m}));
                         continue;
                     }
                 }
             }
-            "state" => Ok(state::<S, E>(&e)),
+            "state" => proj::<S, E>(&e),
             "reload" => {
                 let mode = op["mode"].as_str().unwrap_or("full").to_string();
                 match guard(|| reload(&e, &mode)) {
                     Ok(Ok(t)) => {
                         e = t;
-                        Ok(state::<S, E>(&e))
+                        proj::<S, E>(&e)
                     }
-                    Ok(Err(m)) => Ok(merge(state::<S, E>(&e), json!({"ioerr": m}))),
+                    Ok(Err(m)) => Ok(json!({"ioerr": m})),
                     Err(m) => Err(m),
                 }
             }
